@@ -1,5 +1,6 @@
 import Cherab.Drv.Proto
 import Cherab.Model.BeamEmission
+import Cherab.Model.BeamCache
 open Cherab.Drv Cherab.BeamEmission
 
 /-!
@@ -11,6 +12,9 @@ C05 driver.  Lines:
 * `bes E dx dy dz nb nsp {Z n T vx vy vz}^nsp {null a0 a1 a2 a3}^nsp`
      → `line r {E_i ne_i T_i}^nsp` | `skip` | `zerodiv`
 * `zeff nsp {Z n}^nsp` → `ok zeff iondensity` | `valueerror iondensity`
+* `design cxHead|besHead|cxFixed|besFixed` → `guard nW {a:f|i:f}^nW nR {f}^nR nU {f}^nU` (the caching protocol as transcribed)
+* `cache guard nW {a:f|i:f}^nW nR {f}^nR nU {f}^nU c0 {c<N> | e | f<k>}*` → one of `fresh raised broken stale` per emission
+     (`c<N>` = `_change` into configuration N, `e` = emission, `f<k>` = emission whose populate raises after k writes)
 
 The mock coefficients are the affine functions the Python harness uses, evaluated in the same order.
 -/
@@ -100,6 +104,64 @@ def takeZN : Nat → List String → List (Species Float)
   | k + 1, z :: n :: rest => ⟨pN z, pF n, 0.0, ⟨0.0, 0.0, 0.0⟩⟩ :: takeZN k rest
   | _, _ => []
 
+namespace Cache
+open Cherab.BeamCache
+
+def pField : String → Field
+  | "guard" => .guard | "wavelength" => .wavelength | "ground" => .ground | "data" => .data | _ => .lineshape
+
+def sField : Field → String
+  | .guard => "guard" | .wavelength => "wavelength" | .ground => "ground" | .data => "data" | .lineshape => "lineshape"
+
+def pStmt (t : String) : Stmt :=
+  if t.startsWith "i:" then .init (pField (t.drop 2).toString) else .assign (pField (t.drop 2).toString)
+
+def sStmt : Stmt → String
+  | .assign f => "a:" ++ sField f
+  | .init f => "i:" ++ sField f
+
+def showDesign (d : Design) : String :=
+  " ".intercalate ([sField d.guard, toString d.order.length] ++ d.order.map sStmt ++ [toString d.resets.length]
+    ++ d.resets.map sField ++ [toString d.reads.length] ++ d.reads.map sField)
+
+def pOp (t : String) : Op :=
+  if t == "e" then .emit none
+  else if t.startsWith "f" then .emit (some (pN (t.drop 1).toString))
+  else .change (pN (t.drop 1).toString)
+
+def showObs (d : Design) : Nat × Obs → String
+  | (_, .raised) => "raised"
+  | (_, .broken) => "broken"
+  | (c, o) => if o == freshObs d c then "fresh" else "stale"
+
+def runCache (ts : List String) : String :=
+  match ts with
+  | g :: nw :: rest =>
+    let nw := pN nw
+    let order := (rest.take nw).map pStmt
+    match rest.drop nw with
+    | nr :: rest =>
+      let nr := pN nr
+      let resets := (rest.take nr).map pField
+      match rest.drop nr with
+      | nu :: rest =>
+        let nu := pN nu
+        let reads := (rest.take nu).map pField
+        match rest.drop nu with
+        | c0 :: ops =>
+          let d : Design := ⟨pField g, order, resets, reads⟩
+          " ".intercalate ((run d (fresh (pN c0)) (ops.map pOp)).2.map (showObs d))
+        | _ => "bad-op"
+      | _ => "bad-op"
+    | _ => "bad-op"
+  | _ => "bad-op"
+
+def named : String → Option Design
+  | "cxHead" => some cxHead | "besHead" => some besHead | "cxFixed" => some cxFixed | "besFixed" => some besFixed
+  | _ => none
+
+end Cache
+
 def step (c : Consts Float) (ts : List String) : Consts Float × String :=
   match ts with
   | ["const", e, amu, r] => (⟨pF e, pF amu, pF r⟩, "ok")
@@ -119,6 +181,8 @@ def step (c : Consts Float) (ts : List String) : Consts Float × String :=
                else compositionAdd before (items.head?.getD none)
       (c, (if r.raised then "raised" else "ok") ++ " " ++ fB r.notified ++ " " ++
           " ".intercalate (r.dict.map fun e => toString e.1 ++ ":" ++ toString e.2))
+  | ["design", name] => (c, match Cache.named name with | some d => Cache.showDesign d | none => "bad-op")
+  | "cache" :: rest => (c, Cache.runCache rest)
   | _ => (c, "bad-op")
 
 def main : IO UInt32 := do
